@@ -183,6 +183,46 @@ class Tally:
                 self.samples.append(samp)
 
 
+class CaseTimeout(BaseException):
+    """Raised by the per-case watchdog inside run_case."""
+
+
+def _on_alarm(_signum, _frame):
+    raise CaseTimeout()
+
+
+def guarded_run(check, case):
+    """run_case under a watchdog.  A case normally takes milliseconds; one that
+    exceeds ``check.CASE_TIMEOUT`` seconds (default 300) is run a second time
+    with twice the limit, and only if it exceeds that too it is reported, as a
+    failure of clause ``no_termination`` (a budget hit alone is never a
+    violation; two consecutive overruns by a factor >= 1000 are a hang)."""
+    import signal
+    import threading
+    limit = float(getattr(check, 'CASE_TIMEOUT', 300))
+    if limit <= 0 or threading.current_thread() is not threading.main_thread():
+        return check.run_case(case)
+    old = signal.signal(signal.SIGALRM, _on_alarm)
+    try:
+        for attempt in (1, 2):
+            signal.setitimer(signal.ITIMER_REAL, limit * attempt)
+            try:
+                return check.run_case(case)
+            except CaseTimeout:
+                if hasattr(check, 'after_timeout'):
+                    check.after_timeout(case)
+            finally:
+                signal.setitimer(signal.ITIMER_REAL, 0)
+        out = Outcome()
+        out.failures.append(Failure(
+            'no_termination', f'{check.ID}/no_termination',
+            f'the case did not finish within {limit:.0f} s nor, run again, within {2 * limit:.0f} s'))
+        out.labels.append('case-timeout')
+        return out
+    finally:
+        signal.signal(signal.SIGALRM, old)
+
+
 def _hyp_settings(n_examples, shrink=False):
     from hypothesis import settings, HealthCheck, Phase
     phases = [Phase.generate, Phase.shrink] if shrink else [Phase.generate]
@@ -206,7 +246,7 @@ def run_generated(check, tier, seed, n_examples, deadline, tally, origin='genera
         if time.monotonic() > deadline:
             tally.budget_exhausted = True
             return
-        outcome = check.run_case(case)
+        outcome = guarded_run(check, case)
         tally.add(case, outcome, origin)
 
     sweep()
@@ -231,7 +271,7 @@ def shrink_bucket(check, tier, seed, n_examples, signature, seconds=60):
     @_hyp_settings(n_examples, shrink=True)
     @given(strat)
     def hunt(case):
-        outcome = check.run_case(case)
+        outcome = guarded_run(check, case)
         for fail in outcome.failures:
             if fail.signature == signature:
                 last['case'] = case
@@ -274,7 +314,7 @@ def _shard_main(args):
                 for idx, case in enumerate(gen()):
                     if idx % nshards != shard:
                         continue
-                    outcome = check.run_case(case)
+                    outcome = guarded_run(check, case)
                     tally.add(case, outcome, 'enum:' + name)
         if n_examples > 0:
             run_generated(check, tier, seed * 1000 + shard, n_examples, deadline, tally)
